@@ -111,7 +111,9 @@ func customOptionFiles() (rule, user *descriptorpb.FileDescriptorProto) {
 		Extension:   []*descriptorpb.FieldDescriptorProto{ext("msg_rule", 50001, ".google.protobuf.MessageOptions"), ext("field_rule", 50002, ".google.protobuf.FieldOptions"), ext("file_rule", 50003, ".google.protobuf.FileOptions")},
 	}
 	setGoPackage(rule, "custrule")
-	unk := func(num protowire.Number) []byte { return protowire.AppendBytes(protowire.AppendTag(nil, num, protowire.BytesType), body) }
+	unk := func(num protowire.Number) []byte {
+		return protowire.AppendBytes(protowire.AppendTag(nil, num, protowire.BytesType), body)
+	}
 	mo := &descriptorpb.MessageOptions{}
 	mo.ProtoReflect().SetUnknown(unk(50001))
 	fo := &descriptorpb.FieldOptions{}
